@@ -243,6 +243,18 @@ func rewrite(path string, src []byte, pkg string) ([]byte, bool, error) {
 			}
 			var out []ast.Stmt
 			for _, st := range b.List {
+				// the library's periodic checker (`go uh.StartHealthCheck()`): harness instances live far below its 5 s
+				// period, and an upstream destroyed before that goroutine was first scheduled keeps its ticker for ever
+				// (the library's stop flag is overwritten by the late start) — thousands of short-lived instances would
+				// leave thousands of checkers dialling the harness origins. The in-process build hands the start to the
+				// harness (vsched.Background: off unless a scenario asks for it); pike's real main() is built unchanged.
+				if gs, ok := st.(*ast.GoStmt); ok {
+					if se, ok := gs.Call.Fun.(*ast.SelectorExpr); ok && se.Sel.Name == "StartHealthCheck" && len(gs.Call.Args) == 0 {
+						out = append(out, &ast.ExprStmt{X: &ast.CallExpr{Fun: &ast.SelectorExpr{X: ast.NewIdent("vsched"), Sel: ast.NewIdent("Background")}, Args: []ast.Expr{gs.Call.Fun}}})
+						needSched = true
+						continue
+					}
+				}
 				if es, ok := st.(*ast.ExprStmt); ok {
 					if ce, ok := es.X.(*ast.CallExpr); ok {
 						if se, ok := ce.Fun.(*ast.SelectorExpr); ok && se.Sel.Name == "DoHealthCheck" {
